@@ -231,3 +231,34 @@ def tv_eval(e, atom, defs=None):
         v = tv_eval(e.operand, atom, defs)
         return None if v is None else (not v)
     return atom(e)
+
+
+def empty_file_fallback_sites(fn):
+    """Inside `except ...NotJSONError:` handlers of fn: (handler, [(if-node guarding a bare raise, test)]) for the re-raise
+    that keeps non-empty garbage an error."""
+    out = []
+    for n in walk_no_nested(fn):
+        if isinstance(n, ast.ExceptHandler) and n.type is not None and 'NotJSONError' in ast.unparse(n.type):
+            sites = []
+            for x in ast.walk(n):
+                if isinstance(x, ast.If) and any(isinstance(b, ast.Raise) and b.exc is None for b in x.body):
+                    if any(isinstance(c, ast.Call) and isinstance(c.func, ast.Attribute) and c.func.attr == 'read' for c in ast.walk(x.test)):
+                        sites.append(x)
+            out.append((n, sites))
+    return out
+
+
+def pure_emptiness_test(test):
+    """Is `test` true exactly when <file>.read(...) returned something?  Accepted: len(R) != 0, len(R) > 0, R, R != '' / b''."""
+    def is_read(e):
+        return isinstance(e, ast.Call) and isinstance(e.func, ast.Attribute) and e.func.attr == 'read' and isinstance(e.func.value, ast.Name)
+    if is_read(test):
+        return True
+    if isinstance(test, ast.Compare) and len(test.ops) == 1:
+        l, r = test.left, test.comparators[0]
+        if isinstance(l, ast.Call) and isinstance(l.func, ast.Name) and l.func.id == 'len' and len(l.args) == 1 and is_read(l.args[0]) and \
+                isinstance(r, ast.Constant) and r.value == 0 and isinstance(test.ops[0], (ast.NotEq, ast.Gt)):
+            return True
+        if is_read(l) and isinstance(r, ast.Constant) and r.value in ('', b'') and isinstance(test.ops[0], ast.NotEq):
+            return True
+    return False
